@@ -16,6 +16,7 @@ import (
 	"runtime/debug"
 	"sort"
 	"strconv"
+	"strings"
 	"sync"
 	"testing/synctest"
 	"time"
@@ -123,7 +124,13 @@ type Sched struct {
 	siteOff    map[string]bool
 	lastPick   *Task
 	samePick   int
-	Switches   int
+	recQuantum int
+	pendingRec int
+	// Record makes the scheduler keep the list of decisions that had a choice
+	// ("name|quantum"), to be fed back through Config.Decisions.
+	Record   bool
+	Recorded []string
+	Switches int
 }
 
 var (
@@ -506,20 +513,27 @@ func hashStr(s string) uint64 {
 }
 
 func (s *Sched) choose(opts []option) int {
-	// recorded decisions first
-	if s.decIdx < len(s.cfg.Decisions) {
+	s.recQuantum = -1
+	if len(opts) == 1 {
+		return 0
+	}
+	// recorded decisions first (only decisions that had a choice are recorded)
+	for s.decIdx < len(s.cfg.Decisions) {
 		want := s.cfg.Decisions[s.decIdx]
 		s.decIdx++
+		name, q := want, 0
+		if k := strings.LastIndexByte(want, '|'); k >= 0 {
+			name = want[:k]
+			q, _ = strconv.Atoi(want[k+1:])
+		}
 		for i := range opts {
-			if opts[i].name == want {
+			if opts[i].name == name {
+				s.recQuantum = q
 				return i
 			}
 		}
+		// the recorded option does not exist here (the plan was shrunk): skip it
 		s.Diverged++
-		return 0
-	}
-	if len(opts) == 1 {
-		return 0
 	}
 	if s.fair {
 		// round-robin over names: the first option whose name is greater than
@@ -625,6 +639,12 @@ func (s *Sched) Loop() {
 		i := s.choose(opts)
 		o := opts[i]
 		s.step++
+		if len(opts) > 1 && s.Record {
+			s.pendingRec = len(s.Recorded)
+			s.Recorded = append(s.Recorded, o.name)
+		} else {
+			s.pendingRec = -1
+		}
 		if len(opts) > 1 {
 			s.Contended++
 			site := ""
@@ -652,13 +672,18 @@ func (s *Sched) Loop() {
 			t.state = tsRunning
 			t.cond = nil
 			t.Steps++
-			if s.fair || s.decIdx < len(s.cfg.Decisions) || len(s.cfg.Decisions) > 0 {
+			if s.recQuantum >= 0 {
+				t.quantum = s.recQuantum
+			} else if s.fair {
 				t.quantum = 0
 			} else if s.cfg.Quantum > 1 {
 				// geometric-ish: mostly short, sometimes long
 				t.quantum = s.rng.Intn(2 * s.cfg.Quantum)
 			} else {
 				t.quantum = 0
+			}
+			if s.pendingRec >= 0 {
+				s.Recorded[s.pendingRec] += "|" + strconv.Itoa(t.quantum)
 			}
 			s.cur = t
 			s.mu.Unlock()
